@@ -22,6 +22,9 @@ CLAIMED = {
     ),
 }
 
+# ids whose check has been reviewed by the lead, passes on /repo and is registered
+INTEGRATED = ["C08", "C09", "C17", "C18"]
+
 PENDING_REASON = "check not built yet in this round (model and proofs in progress; see DESIGN.md §9 build order)"
 
 
@@ -29,6 +32,8 @@ def load_fragments():
     """harness/props/Cxx.manifest.json fragments: {"technique","text","note","design_ref"}"""
     for f in sorted((VERIF / "harness" / "props").glob("C*.manifest.json")):
         pid = f.name.split(".")[0]
+        if pid not in INTEGRATED:
+            continue
         if not (VERIF / "harness" / "props" / (pid + ".py")).exists():
             continue
         d = json.loads(f.read_text())
